@@ -282,18 +282,21 @@ static void run_plain()
 }
 
 // ---- converting load / store: footprint To::size * sizeof(From) bytes ----
-template <class From, class To>
-static void run_convert()
+// FORM 0: xsimd::load_as / store_as (unaligned_mode), 1: the same with aligned_mode (pointers aligned on A::alignment()),
+// 2: the members batch<To>::load_unaligned(From const*) / store_unaligned(From*), 3: load_aligned / store_aligned
+template <class From, class To, int FORM>
+static void run_convert_form()
 {
-    g_section = "converting load_as/store_as";
-    static const std::string cvname = std::string(tn<From>::name()) + "->" + tn<To>::name();
-    g_type = cvname.c_str();
+    static const char* const LNAME[] = { "load_as", "load_as(aligned_mode)", "batch::load_unaligned(U const*)", "batch::load_aligned(U const*)" };
+    static const char* const SNAME[] = { "store_as", "store_as(aligned_mode)", "batch::store_unaligned(U*)", "batch::store_aligned(U*)" };
+    const char* lname = LNAME[FORM];
+    const char* sname = SNAME[FORM];
     using Bt = B<To>;
     const size_t F = Bt::size * sizeof(From);
     const std::string nm = std::string(tn<From>::name()) + "->" + tn<To>::name();
     uint64_t n = 0;
     // memory holds small values representable in both types
-    for (unsigned char* p : placements(F, 1))
+    for (unsigned char* p : placements(F, (FORM & 1) ? A::alignment() : 1))
     {
         ++n;
         fill_arena(3);
@@ -305,12 +308,20 @@ static void run_convert()
         asm volatile("" ::: "memory"); // the kernel call below must not be moved out of the armed window
         if (sigsetjmp(g_env, 1))
         {
-            char b[160];
-            snprintf(b, sizeof b, "load_as %s at data offset %ld: faulted %ld bytes from the buffer start (footprint %zu bytes)", nm.c_str(), (long)(p - g_lo), (long)((unsigned char*)g_fault_addr - p), F);
-            violation("load_as", nm, b);
+            char b[200];
+            snprintf(b, sizeof b, "%s %s at data offset %ld: faulted %ld bytes from the buffer start (footprint %zu bytes)", lname, nm.c_str(), (long)(p - g_lo), (long)((unsigned char*)g_fault_addr - p), F);
+            violation(lname, nm, b);
             continue;
         }
-        Bt v = xs::load_as<To, A>((const From*)p, xs::unaligned_mode());
+        Bt v;
+        if constexpr (FORM == 0)
+            v = xs::load_as<To, A>((const From*)p, xs::unaligned_mode());
+        else if constexpr (FORM == 1)
+            v = xs::load_as<To, A>((const From*)p, xs::aligned_mode());
+        else if constexpr (FORM == 2)
+            v = Bt::load_unaligned((const From*)p);
+        else
+            v = Bt::load_aligned((const From*)p);
         asm volatile("" ::: "memory");
         g_armed = 0;
         To got[64];
@@ -318,21 +329,28 @@ static void run_convert()
         for (size_t i = 0; i < Bt::size; ++i)
             if (got[i] != (To)vals[i])
             {
-                violation("load_as", nm, "lane " + std::to_string(i) + " does not hold memory element " + std::to_string(i) + " (data offset " + std::to_string(p - g_lo) + ")");
+                violation(lname, nm, "lane " + std::to_string(i) + " does not hold memory element " + std::to_string(i) + " (data offset " + std::to_string(p - g_lo) + ")");
                 break;
             }
-        // store_as: batch<To> stored as From elements: exactly F bytes
+        // store: batch<To> stored as From elements: exactly F bytes
         fill_arena(4);
         g_armed = 1;
         asm volatile("" ::: "memory"); // the kernel call below must not be moved out of the armed window
         if (sigsetjmp(g_env, 1))
         {
-            char b[160];
-            snprintf(b, sizeof b, "store_as %s at data offset %ld: faulted %ld bytes from the buffer start (footprint %zu bytes)", nm.c_str(), (long)(p - g_lo), (long)((unsigned char*)g_fault_addr - p), F);
-            violation("store_as", nm, b);
+            char b[200];
+            snprintf(b, sizeof b, "%s %s at data offset %ld: faulted %ld bytes from the buffer start (footprint %zu bytes)", sname, nm.c_str(), (long)(p - g_lo), (long)((unsigned char*)g_fault_addr - p), F);
+            violation(sname, nm, b);
             continue;
         }
-        xs::store_as((From*)p, v, xs::unaligned_mode());
+        if constexpr (FORM == 0)
+            xs::store_as((From*)p, v, xs::unaligned_mode());
+        else if constexpr (FORM == 1)
+            xs::store_as((From*)p, v, xs::aligned_mode());
+        else if constexpr (FORM == 2)
+            v.store_unaligned((From*)p);
+        else
+            v.store_aligned((From*)p);
         asm volatile("" ::: "memory");
         g_armed = 0;
         From back[64];
@@ -340,7 +358,7 @@ static void run_convert()
         for (size_t i = 0; i < Bt::size; ++i)
             if (back[i] != vals[i])
             {
-                violation("store_as", nm, "memory element " + std::to_string(i) + " does not hold lane " + std::to_string(i));
+                violation(sname, nm, "memory element " + std::to_string(i) + " does not hold lane " + std::to_string(i));
                 break;
             }
         unsigned char* a = p - 160 < g_lo ? g_lo : p - 160;
@@ -348,13 +366,24 @@ static void run_convert()
         for (unsigned char* q = a; q < z; ++q)
             if ((q < p || q >= p + F) && *q != pat((size_t)(q - g_lo), 4))
             {
-                violation("store_as", nm, "a byte " + std::to_string(q - p) + " relative to the buffer (outside its " + std::to_string(F) + " bytes) was modified");
+                violation(sname, nm, "a byte " + std::to_string(q - p) + " relative to the buffer (outside its " + std::to_string(F) + " bytes) was modified");
                 break;
             }
     }
     R.states += 2 * n;
     R.transitions += 2 * n * Bt::size;
-    R.per_op["load_as/store_as<" + nm + ">"] += 2 * n;
+    R.per_op[std::string(lname) + "/" + sname + "<" + nm + ">"] += 2 * n;
+}
+template <class From, class To>
+static void run_convert()
+{
+    g_section = "converting load_as/store_as";
+    static const std::string cvname = std::string(tn<From>::name()) + "->" + tn<To>::name();
+    g_type = cvname.c_str();
+    run_convert_form<From, To, 0>();
+    run_convert_form<From, To, 1>();
+    run_convert_form<From, To, 2>();
+    run_convert_form<From, To, 3>();
 }
 template <class From, class... To>
 static void run_convert_from() { (run_convert<From, To>(), ...); }
